@@ -953,3 +953,20 @@ def _(m, callee, args):
         if disc_is(m, v, 1):
             return ERR(v.fields[0])
         out.append(v.fields[0])
+
+
+@model(r'^<Vec<.*> as (std::ops::)?Index<usize>>::index$|^<\[.*\] as (std::ops::)?Index<usize>>::index$')
+def _(m, callee, args):
+    v = deref_all(m, args[0])
+    items = v.items if isinstance(v, RVec) else v
+    i = args[1]
+    if is_sym(i):
+        raise Unsupported('symbolic index')
+    if i >= len(items):
+        raise Panic(f'index out of bounds: the len is {len(items)} but the index is {i}')
+    return ValRef(items[i])
+
+
+@model(r'^<String as From<&str>>::from$|^<String as From<&String>>::from$|^<str as ToString>::to_string$|^<String as ToString>::to_string$|^<&str as Into<String>>::into$|^<String as Clone>::clone$|^String::from$')
+def _(m, callee, args):
+    return RStr(list(rstr(m, args[0]).cs))
